@@ -1,17 +1,377 @@
-Require Import ZArith List.
-Require Import BFL.Ops BFL.C16_Model BFL.C16_Proofs.
+(* Properties_C16.v — property C16: the shipped models and initialisers match
+   their documented closed form.  Statements only; each is closed by a lemma
+   of C16_Proofs / C16_ProofsSM.  The linear-algebra statements hold for every
+   realFieldType F; the constructor and serving statements for every
+   arithmetic instance O (hence also for the list instance that is run). *)
+Require Import ZArith QArith List.
+Require Import BFL.Ops BFL.ListOps BFL.Density BFL.C16_Model BFL.C16_ProofsSM.
+From mathcomp Require Import all_ssreflect all_algebra.
+Require Import BFL.MxOps BFL.LinAlg BFL.C16_Proofs.
+Import GRing.Theory Num.Theory.
+Local Open Scope ring_scope.
 
 Section C16.
-Variable O : MatOps.
-Theorem C16_lti_state_ctor_validation fr fc qr qc (F : M O fr fc) (Q : M O qr qc) :
-  match lti_state_ctor F Q with
-  | inr (F', Q') => F' = F /\ Q' = Q /\ 0 < fr /\ fr = fc /\ qr = qc /\ fr = qr
-  | inl ErrFEmpty => fr = 0 \/ fc = 0
-  | inl ErrQEmpty => ~ (fr = 0 \/ fc = 0) /\ (qr = 0 \/ qc = 0)
-  | inl ErrFNotSquare => 0 < fr /\ 0 < fc /\ 0 < qr /\ 0 < qc /\ fr <> fc
-  | inl ErrQNotSquare => 0 < fr /\ fr = fc /\ 0 < qr /\ 0 < qc /\ qr <> qc
-  | inl ErrFQMismatch => 0 < fr /\ fr = fc /\ 0 < qr /\ qr = qc /\ fr <> qr
-  end.
-Proof. exact (lti_state_ctor_spec O fr fc qr qc F Q). Qed.
+Variable F : realFieldType.
+Variable tr : Transc F.
+Variable sq : forall n, 'M[F]_n -> 'M[F]_n.
+Variable eg : forall n, 'M[F]_n -> 'M[F]_(n,1).
+Let O := MxMat tr sq eg.
+
+(* ---- WhiteNoiseAcceleration: F, Q ---- *)
+
+Theorem C16_state_dimension d : dim_n d = (2 * dim_blocks d)%N.
+Proof. exact: dim_n_blocks. Qed.
+
+(* F = blockdiag_k [1 T; 0 1]: entry (2a+r, 2b+s) is entry (r, s) of block (a, b) *)
+Theorem C16_F_closed_form d (T : F) a b r s :
+  (a < dim_blocks d)%N -> (b < dim_blocks d)%N -> (r < 2)%N -> (s < 2)%N ->
+  mget (wna_F (O:=O) d T) (2 * a + r) (2 * b + s) =
+  if a == b then (if r == s then 1 else if (r < s)%N then T else 0) else 0.
+Proof. exact: wna_F_entry. Qed.
+
+(* Q = q blockdiag_k [T^3/3 T^2/2; T^2/2 T] *)
+Theorem C16_Q_closed_form d (T q : F) a b r s :
+  (a < dim_blocks d)%N -> (b < dim_blocks d)%N -> (r < 2)%N -> (s < 2)%N ->
+  mget (wna_Q (O:=O) d T q) (2 * a + r) (2 * b + s) =
+  if a == b then q * (match r, s with
+                      | 0%N, 0%N => T ^+ 3 / 3%:R
+                      | 1%N, 1%N => T
+                      | _, _ => T ^+ 2 / 2%:R
+                      end) else 0.
+Proof. exact: wna_Q_entry. Qed.
+
+(* the two leading minors of the 2x2 block *)
+Theorem C16_Q_block_minors (T : F) : 0 < T ->
+  0 < T ^+ 3 / 3%:R /\
+  T ^+ 3 / 3%:R * T - T ^+ 2 / 2%:R * (T ^+ 2 / 2%:R) = T ^+ 4 / 12%:R /\ 0 < T ^+ 4 / 12%:R.
+Proof. exact: wna_Q2_minors. Qed.
+
+(* so Q is SPD (the premise of the LDLT contract) and invertible (the density is not totalised) *)
+Theorem C16_Q_spd d (T q : F) : 0 < T -> 0 < q -> spd (wna_Q (O:=O) d T q : 'M[F]_(dim_n d)).
+Proof. exact: wna_Q_spd. Qed.
+
+Theorem C16_Q_invertible d (T q : F) : 0 < T -> 0 < q ->
+  (wna_Q (O:=O) d T q : 'M[F]_(dim_n d)) \in unitmx.
+Proof. exact: wna_Q_unit. Qed.
+
+(* ---- sampling, motion, transition density ---- *)
+
+(* a sample has the state dimension; column j is sqrt_Q applied to the j-th group of
+   dim_n d consecutive draws; exactly dim_n d * num draws are consumed (so the samples
+   are a function of the seed-determined draws only) *)
+Theorem C16_noise_dim d (T q : F) num zs :
+  (wna_noise_sample (O:=O) d T q num zs).2 = skipn (dim_n d * num) zs /\
+  forall (i : 'I_(dim_n d)) (j : 'I_num),
+    ((wna_noise_sample (O:=O) d T q num zs).1 : 'M[F]_(dim_n d, num)) i j =
+    \sum_(k < dim_n d) (wna_sqrtQ (O:=O) d T q : 'M[F]_(dim_n d)) i k * List.nth (j * dim_n d + k)%N zs 0.
+Proof. exact: wna_noise_sample_spec. Qed.
+
+(* the sample W = L Z is a linear image of the draws: W W^T = L (Z Z^T) L^T = Q when
+   Z Z^T = I (the algebraic form of E[Z Z^T] = I), L the factor of the LDLT oracle *)
+Theorem C16_noise_cov d (T q : F) num zs :
+  (forall n (P : 'M[F]_n), spd P -> sq n P *m (sq n P)^T = P) -> 0 < T -> 0 < q ->
+  let Z : 'M[F]_(dim_n d, num) := fill_colmajor (O:=O) (dim_n d) num zs in
+  let W : 'M[F]_(dim_n d, num) := (wna_noise_sample (O:=O) d T q num zs).1 in
+  Z *m Z^T = 1%:M -> W *m W^T = wna_Q (O:=O) d T q.
+Proof. exact: wna_noise_cov. Qed.
+
+Theorem C16_motion d (T q : F) c (X : 'M[F]_(dim_n d, c)) zs :
+  wna_motion (O:=O) d T q X zs =
+  ((wna_F (O:=O) d T : 'M[F]_(dim_n d)) *m X
+     + (wna_sqrtQ (O:=O) d T q : 'M[F]_(dim_n d)) *m (fill_colmajor (O:=O) (dim_n d) c zs : 'M[F]_(dim_n d, c)),
+   skipn (dim_n d * c) zs).
+Proof. exact: wna_motion_eq. Qed.
+
+(* one value per (previous, current) pair: N(cur_j; F prev_j, Q) *)
+Theorem C16_transition_density d (T q : F) c (prev cur : 'M[F]_(dim_n d, c)) :
+  length (wna_transition_probability (O:=O) d T q prev cur) = c /\
+  forall (j : 'I_c) dflt,
+    List.nth j (wna_transition_probability (O:=O) d T q prev cur) dflt =
+    density (O:=O) (col j cur) ((wna_F (O:=O) d T : 'M[F]_(dim_n d)) *m col j prev) (wna_Q (O:=O) d T q).
+Proof. exact: wna_transition_density. Qed.
+
+(* the simulated trajectory over this model (C16_trajectory below, with motion := wna_motion on one
+   column): x_{k+1} = F x_k + L z_k, z_k the k-th group of dim_n d consecutive draws *)
+Theorem C16_trajectory_wna d (T q : F) (x0 : 'cV[F]_(dim_n d)) zs k :
+  ((iter_motion (@wna_motion1 F tr sq eg d T q) k.+1 (x0, zs)).1 : 'cV[F]_(dim_n d)) =
+  (wna_F (O:=O) d T : 'M[F]_(dim_n d)) *m (iter_motion (@wna_motion1 F tr sq eg d T q) k (x0, zs)).1
+  + (wna_sqrtQ (O:=O) d T q : 'M[F]_(dim_n d))
+      *m (fill_colmajor (O:=O) (dim_n d) 1 (skipn (dim_n d * k) zs) : 'cV[F]_(dim_n d)).
+Proof. exact: wna_iter_step. Qed.
+
+(* ---- component selector ---- *)
+
+Theorem C16_selector_matrix n (idxs : list nat) rr rc (R : 'M[F]_(rr, rc)) H R' L :
+  linear_model_ctor (O:=O) n idxs R = inr (H, R', L) ->
+  forall a b, (a < length idxs)%N -> (b < n)%N ->
+  mget (H : M O (length idxs) n) a b = if b == List.nth a idxs 0%N then 1 else 0.
+Proof. exact: linear_model_H. Qed.
+
+(* ---- grid initialiser ---- *)
+
+Theorem C16_grid_refusal xinf xsup yinf ysup nx ny np (st : 'M[F]_(4, np)) (w : 'cV[F]_np) :
+  grid_initialize (O:=O) xinf xsup yinf ysup nx ny st w = None <-> np <> (nx * ny)%N.
+Proof. exact: grid_refusal. Qed.
+
+Theorem C16_grid_positions xinf xsup yinf ysup nx ny np (st : 'M[F]_(4, np)) (w : 'cV[F]_np) st' w' :
+  grid_initialize (O:=O) xinf xsup yinf ysup nx ny st w = Some (st', w') ->
+  forall i j r, (i < nx)%N -> (j < ny)%N -> (r < 4)%N ->
+    mget (st' : M O 4 np) r (i * ny + j) =
+    match r with
+    | 0%N => xinf + i%:R * ((xsup - xinf) / (nx%:R - 1))
+    | 2%N => yinf + j%:R * ((ysup - yinf) / (ny%:R - 1))
+    | _ => 0
+    end.
+Proof. exact: grid_positions_closed. Qed.
+
+Theorem C16_grid_spans (inf sup : F) n : (2 <= n)%N ->
+  grid_coord (O:=O) (sup - inf) inf n 0 = inf /\ grid_coord (O:=O) (sup - inf) inf n n.-1 = sup.
+Proof. exact: grid_spans. Qed.
+
+Theorem C16_grid_weights xinf xsup yinf ysup nx ny np (st : 'M[F]_(4, np)) (w : 'cV[F]_np) st' w' :
+  grid_initialize (O:=O) xinf xsup yinf ysup nx ny st w = Some (st', w') ->
+  np = (nx * ny)%N /\ forall k, (k < np)%N -> mget (w' : M O np 1) k 0 = - t_ln tr (np%:R).
+Proof. exact: grid_weights. Qed.
+
+Theorem C16_grid_overwrites xinf xsup yinf ysup nx ny np (st st2 : 'M[F]_(4, np)) (w w2 : 'cV[F]_np) :
+  grid_initialize (O:=O) xinf xsup yinf ysup nx ny st w =
+  grid_initialize (O:=O) xinf xsup yinf ysup nx ny st2 w2.
+Proof. exact: grid_overwrites. Qed.
+
 End C16.
+
+(* ---- constructors, trajectory, sensor: for every arithmetic instance ---- *)
+Local Close Scope ring_scope.
+Local Open Scope nat_scope.
+
+Section C16_any_instance.
+Variable O : MatOps.
+
+(* exactly the empty / non-square / mismatched inputs are rejected, each by the first
+   check that applies in the code's order; accepted inputs are exposed unchanged *)
+Theorem C16_lti_state_ctor_validation fr fc qr qc (Fm : M O fr fc) (Q : M O qr qc) :
+  match lti_state_ctor Fm Q with
+  | inr (F', Q') => F' = Fm /\ Q' = Q /\ (0 < fr)%coq_nat /\ fr = fc /\ qr = qc /\ fr = qr
+  | inl ErrFEmpty => fr = 0 \/ fc = 0
+  | inl ErrQEmpty => (0 < fr)%coq_nat /\ (0 < fc)%coq_nat /\ (qr = 0 \/ qc = 0)
+  | inl ErrFNotSquare => (0 < fr)%coq_nat /\ (0 < fc)%coq_nat /\ (0 < qr)%coq_nat /\ (0 < qc)%coq_nat /\ fr <> fc
+  | inl ErrQNotSquare => (0 < fr)%coq_nat /\ fr = fc /\ (0 < qr)%coq_nat /\ (0 < qc)%coq_nat /\ qr <> qc
+  | inl ErrFQMismatch => (0 < fr)%coq_nat /\ fr = fc /\ (0 < qr)%coq_nat /\ qr = qc /\ fr <> qr
+  end.
+Proof. exact: lti_state_ctor_spec. Qed.
+
+Theorem C16_lti_meas_ctor_validation hr hc rr rc (H : M O hr hc) (R : M O rr rc) :
+  match lti_meas_ctor H R with
+  | inr (H', R') => H' = H /\ R' = R /\ (0 < hr)%coq_nat /\ (0 < hc)%coq_nat /\ rr = rc /\ hr = rr
+  | inl ErrHEmpty => hr = 0 \/ hc = 0
+  | inl ErrREmpty => (0 < hr)%coq_nat /\ (0 < hc)%coq_nat /\ (rr = 0 \/ rc = 0)
+  | inl ErrRNotSquare => (0 < hr)%coq_nat /\ (0 < hc)%coq_nat /\ (0 < rr)%coq_nat /\ (0 < rc)%coq_nat /\ rr <> rc
+  | inl ErrHRMismatch => (0 < hr)%coq_nat /\ (0 < hc)%coq_nat /\ (0 < rr)%coq_nat /\ rr = rc /\ hr <> rr
+  | inl (ErrIndex _ _) => False
+  end.
+Proof. exact: lti_meas_ctor_spec. Qed.
+
+(* LinearModel: the base-class checks on a |idxs| x n matrix, then the first index outside
+   the state vector is reported; otherwise R is exposed unchanged and sqrt_R is the factor of R *)
+Theorem C16_selector_ctor_validation n (idxs : list nat) rr rc (R : M O rr rc) :
+  let m := length idxs in
+  match linear_model_ctor n idxs R with
+  | inr (H, R', L) =>
+      R' = R /\ L = msqrt (mbuild rr rr (fun i j => mget R i j)) /\ lm_fill 0 idxs (mzero m n) = inr H /\
+      (0 < m)%coq_nat /\ (0 < n)%coq_nat /\ rr = rc /\ m = rr /\ Forall (fun c => (c < n)%coq_nat) idxs
+  | inl ErrHEmpty => m = 0 \/ n = 0
+  | inl ErrREmpty => (0 < m)%coq_nat /\ (0 < n)%coq_nat /\ (rr = 0 \/ rc = 0)
+  | inl ErrRNotSquare => (0 < m)%coq_nat /\ (0 < n)%coq_nat /\ (0 < rr)%coq_nat /\ (0 < rc)%coq_nat /\ rr <> rc
+  | inl ErrHRMismatch => (0 < m)%coq_nat /\ (0 < n)%coq_nat /\ (0 < rr)%coq_nat /\ rr = rc /\ m <> rr
+  | inl (ErrIndex p v) =>
+      ((0 < m)%coq_nat /\ (0 < n)%coq_nat /\ rr = rc /\ m = rr) /\
+      nth_error idxs p = Some v /\ (n <= v)%coq_nat /\ Forall (fun c => (c < n)%coq_nat) (firstn p idxs)
+  end.
+Proof. exact: linear_model_ctor_spec. Qed.
+
+Theorem C16_selector_rejects_out_of_range n (idxs : list nat) rr rc (R : M O rr rc) :
+  (0 < length idxs)%coq_nat -> (0 < n)%coq_nat -> rr = rc -> length idxs = rr ->
+  ~ Forall (fun c => (c < n)%coq_nat) idxs ->
+  exists p v, linear_model_ctor n idxs R = inl (ErrIndex p v) /\
+              nth_error idxs p = Some v /\ (n <= v)%coq_nat /\ Forall (fun c => (c < n)%coq_nat) (firstn p idxs).
+Proof. exact: linear_model_rejects. Qed.
+
+Section Serving.
+Variable d : nat.
+Variable motion : M O d 1 -> list (T (sc O)) -> M O d 1 * list (T (sc O)).
+
+(* the constructor stores x_0 = the given state and x_{k+1} = motion(x_k), the draws threaded
+   in order; simulation_time = 0 is the only input that is rejected *)
+Theorem C16_trajectory (x0 : M O d 1) len zs :
+  match sim_ctor motion x0 len zs with
+  | inl ErrSimEmpty => len = 0
+  | inr st =>
+      (0 < len)%coq_nat /\ sim_wf st /\ sim_time st = len /\ sim_cur st = 0 /\ sim_data st = None /\
+      (forall k, (k < len)%coq_nat ->
+         nth_error (sim_target st) k = Some (fst (iter_motion motion k (x0, zs))))
+  end.
+Proof. exact: sim_ctor_spec. Qed.
+
+(* an empty trajectory is rejected at construction (no state is built), and it is the only
+   rejected input (C16_trajectory) *)
+Theorem C16_zero_length_has_no_state (x0 : M O d 1) zs : sim_ctor motion x0 0 zs = inl ErrSimEmpty.
+Proof. by []. Qed.
+
+Theorem C16_trajectory_recurrence k (p : M O d 1 * list (T (sc O))) :
+  iter_motion motion (S k) p = motion (fst (iter_motion motion k p)) (snd (iter_motion motion k p)).
+Proof. by []. Qed.
+
+(* after ANY call sequence: stored trajectory untouched, cursor = calls since the last reset,
+   capped at the length (so a column outside the trajectory is never read) *)
+Theorem C16_serving_state (st : @sim_state O d) : sim_wf st -> sim_cur st = 0 -> forall ops,
+  let st1 := snd (sim_run st ops) in
+  sim_wf st1 /\ sim_target st1 = sim_target st /\ sim_time st1 = sim_time st /\
+  sim_cur st1 = Nat.min (since_reset ops) (sim_time st).
+Proof. exact: sim_run_state. Qed.
+
+(* bufferData() after ANY history on a freshly built model: the c-th call since the last
+   reset serves x_c while c < length, and reports the end (state untouched) afterwards *)
+Theorem C16_serving (x0 : M O d 1) len zs st pre :
+  sim_ctor motion x0 len zs = inr st ->
+  let st1 := snd (sim_run st pre) in
+  let c := since_reset pre in
+  ((c < len)%coq_nat ->
+     sim_step st1 SimBuffer =
+       (mkSim (sim_target st) len (S c) (Some (fst (iter_motion motion c (x0, zs)))), true))
+  /\ ((len <= c)%coq_nat -> sim_step st1 SimBuffer = (st1, false)).
+Proof. exact: sim_serving. Qed.
+
+Theorem C16_reset_restarts (st : @sim_state O d) :
+  sim_step st SimReset = (mkSim (sim_target st) (sim_time st) 0 (sim_data st), true)
+  /\ sim_step st SimOther = (st, false).
+Proof. by []. Qed.
+
+(* what a run reports for the call that follows the history [pre] *)
+Theorem C16_call_output (st : @sim_state O d) pre op post dflt :
+  List.nth (length pre) (fst (sim_run st (pre ++ op :: post))) dflt =
+  (snd (sim_step (snd (sim_run st pre)) op), sim_data (fst (sim_step (snd (sim_run st pre)) op))).
+Proof. exact: sim_run_nth. Qed.
+
+(* ---- SimulatedLinearSensor ---- *)
+Variable m : nat.
+
+(* one freeze from any well-formed state: measurement = H x_k + L_R z (z the next m draws of
+   the sensor's generator); at the end of the trajectory it forwards the failure and keeps
+   measurement and draws *)
+Theorem C16_sensor_freeze (H : M O m d) (LR : M O m m) (st : @sens_state O d m) : sim_wf (sens_sim st) ->
+  let s := sens_sim st in
+  ((sim_cur s < sim_time s)%coq_nat /\
+   exists x, nth_error (sim_target s) (sim_cur s) = Some x /\
+     sensor_freeze H LR st =
+       (mkSens (mkSim (sim_target s) (sim_time s) (S (sim_cur s)) (Some x))
+               (skipn (m * 1) (sens_zs st))
+               (Some (madd (mmul H x) (mmul LR (fill_colmajor m 1 (sens_zs st))))), true))
+  \/ (sim_cur s = sim_time s /\ sensor_freeze H LR st = (mkSens s (sens_zs st) (sens_meas st), false)).
+Proof. exact: sensor_freeze_spec. Qed.
+
+(* a freeze after ANY history of freezes / resets on a sensor over a fresh trajectory *)
+Theorem C16_sensor_serving (H : M O m d) (LR : M O m m) x0 len zs sim0 zs2 pre :
+  sim_ctor motion x0 len zs = inr sim0 ->
+  let st1 := snd (sensor_run H LR (mkSens sim0 zs2 None) pre) in
+  let c := since_reset (map proj_op pre) in
+  ((c < len)%coq_nat ->
+     let x := fst (iter_motion motion c (x0, zs)) in
+     sensor_freeze H LR st1 =
+       (mkSens (mkSim (sim_target sim0) len (S c) (Some x)) (skipn (m * 1) (sens_zs st1))
+               (Some (madd (mmul H x) (mmul LR (fill_colmajor m 1 (sens_zs st1))))), true))
+  /\ ((len <= c)%coq_nat ->
+       sensor_freeze H LR st1 = (mkSens (sens_sim st1) (sens_zs st1) (sens_meas st1), false)).
+Proof. exact: sensor_serving. Qed.
+
+(* the sensor's generator advances by exactly m draws per successful freeze, by nothing else *)
+Theorem C16_sensor_draws (H : M O m d) (LR : M O m m) ops (st : @sens_state O d m) :
+  sens_zs (snd (sensor_run H LR st ops)) =
+  skipn (m * freeze_successes ops (fst (sensor_run H LR st ops))) (sens_zs st).
+Proof. exact: sensor_run_draws. Qed.
+End Serving.
+End C16_any_instance.
+
+(* ---- non-vacuity ---- *)
+Local Open Scope ring_scope.
+
+(* the premises of the SPD / covariance theorems are satisfiable in every field ... *)
+Example C16_premises_satisfiable (F : realFieldType) n :
+  (0 < (1 : F)) /\ (1%:M : 'M[F]_n) *m (1%:M : 'M[F]_n)^T = 1%:M /\ spd (1%:M : 'M[F]_n).
+Proof. by rewrite ltr01 trmx1 mulmx1; split=> //; split=> //; exact: spd1. Qed.
+
+(* ... and the executable instance of the same model, run over exact rationals: TwoD, T = 2,
+   q = 3 gives the block-diagonal closed forms *)
+Definition QM := ListMat QOps (fun _ A => A) (fun _ A => A).
+Example C16_concrete_FQ :
+  qmx_eqb (@wna_F QM TwoD (2#1)%Q) [:: [:: (1#1); (2#1); (0#1); (0#1)]; [:: (0#1); (1#1); (0#1); (0#1)]; [:: (0#1); (0#1); (1#1); (2#1)]; [:: (0#1); (0#1); (0#1); (1#1)]]%Q
+  && qmx_eqb (@wna_Q QM TwoD (2#1) (3#1))%Q
+             [:: [:: (8#1); (6#1); (0#1); (0#1)]; [:: (6#1); (6#1); (0#1); (0#1)]; [:: (0#1); (0#1); (8#1); (6#1)]; [:: (0#1); (0#1); (6#1); (6#1)]]%Q = true.
+Proof. vm_compute. reflexivity. Qed.
+
+(* a length-3 trajectory of x -> F x + z served past its end and after a reset; and the
+   selector of components (0, 2, 2) of a 4-vector; and a rejected index *)
+Example C16_concrete_serving :
+  let mot := fun (x : M QM 2 1) (zs : list Q) => @additive_motion QM 2 1 (@wna_F QM OneD (1#1)%Q) (@mid QM 2) x zs in
+  match @sim_ctor QM 2 mot [:: [:: (1#1)]; [:: (1#1)]]%Q 3 [:: (1#1); (0#1); (0#1); (1#1); (5#1); (5#1)]%Q with
+  | inr st =>
+      map fst (fst (@sim_run QM 2 st [:: SimBuffer; SimBuffer; SimBuffer; SimBuffer; SimOther; SimReset; SimBuffer]))
+        = [:: true; true; true; false; false; true; true]
+      /\ (match sim_data (snd (@sim_run QM 2 st [:: SimBuffer; SimBuffer; SimBuffer; SimBuffer])) with
+          | Some x => qmx_eqb x [:: [:: (4#1)]; [:: (2#1)]]%Q
+          | None => false
+          end) = true
+  | inl _ => False
+  end.
+Proof. vm_compute. split; reflexivity. Qed.
+
+Example C16_concrete_selector :
+  match @linear_model_ctor QM 4 [:: 0; 2; 2]%N 3 3 [:: [:: (1#1); (0#1); (0#1)]; [:: (0#1); (1#1); (0#1)]; [:: (0#1); (0#1); (1#1)]]%Q with
+  | inr (H, _, _) => qmx_eqb H [:: [:: (1#1); (0#1); (0#1); (0#1)]; [:: (0#1); (0#1); (1#1); (0#1)]; [:: (0#1); (0#1); (1#1); (0#1)]]%Q = true
+  | inl _ => False
+  end
+  /\ @linear_model_ctor QM 4 [:: 0; 4; 7]%N 3 3 [:: [:: (1#1); (0#1); (0#1)]; [:: (0#1); (1#1); (0#1)]; [:: (0#1); (0#1); (1#1)]]%Q = inl (ErrIndex 1 4).
+Proof. vm_compute. split; reflexivity. Qed.
+
+(* a 2 x 3 grid over [-1, 3] x [2, 5]: accepted with 6 particles, refused with 5 *)
+Example C16_concrete_grid :
+  match @grid_initialize QM (-1#1)%Q (3#1)%Q (2#1)%Q (5#1)%Q 2 3 6
+          (lbuild QOps 4 6 (fun _ _ => (9#1)%Q)) (lbuild QOps 6 1 (fun _ _ => (9#1)%Q)) with
+  | Some (st, _) =>
+      qmx_eqb st [:: [:: (-1#1); (-1#1); (-1#1); (3#1); (3#1); (3#1)]; [:: (0#1); (0#1); (0#1); (0#1); (0#1); (0#1)]; [:: (2#1); 7#2; (5#1); (2#1); 7#2; (5#1)]; [:: (0#1); (0#1); (0#1); (0#1); (0#1); (0#1)]]%Q = true
+  | None => False
+  end
+  /\ @grid_initialize QM (-1#1)%Q (3#1)%Q (2#1)%Q (5#1)%Q 2 3 5
+          (lbuild QOps 4 5 (fun _ _ => (9#1)%Q)) (lbuild QOps 5 1 (fun _ _ => (9#1)%Q)) = None.
+Proof. vm_compute. split; reflexivity. Qed.
+
+Print Assumptions C16_state_dimension.
+Print Assumptions C16_F_closed_form.
+Print Assumptions C16_Q_closed_form.
+Print Assumptions C16_Q_block_minors.
+Print Assumptions C16_Q_spd.
+Print Assumptions C16_Q_invertible.
+Print Assumptions C16_noise_dim.
+Print Assumptions C16_noise_cov.
+Print Assumptions C16_motion.
+Print Assumptions C16_transition_density.
+Print Assumptions C16_trajectory_wna.
+Print Assumptions C16_selector_matrix.
+Print Assumptions C16_grid_refusal.
+Print Assumptions C16_grid_positions.
+Print Assumptions C16_grid_spans.
+Print Assumptions C16_grid_weights.
+Print Assumptions C16_grid_overwrites.
 Print Assumptions C16_lti_state_ctor_validation.
+Print Assumptions C16_lti_meas_ctor_validation.
+Print Assumptions C16_selector_ctor_validation.
+Print Assumptions C16_selector_rejects_out_of_range.
+Print Assumptions C16_trajectory.
+Print Assumptions C16_zero_length_has_no_state.
+Print Assumptions C16_trajectory_recurrence.
+Print Assumptions C16_serving_state.
+Print Assumptions C16_serving.
+Print Assumptions C16_reset_restarts.
+Print Assumptions C16_call_output.
+Print Assumptions C16_sensor_freeze.
+Print Assumptions C16_sensor_serving.
+Print Assumptions C16_sensor_draws.
